@@ -300,11 +300,18 @@ func runIODiscipline(p *Program, r *Report) {
 // R13c COUNT-ACC on the typed AST.
 
 type countAcc struct {
-	p     *Program
-	r     *Report
-	fname string
-	total types.Object // running total of the outermost function
-	n     int
+	p       *Program
+	r       *Report
+	fname   string
+	total   types.Object // running total of the outermost function
+	n       int
+	firstOp token.Pos // position of the first stream operation seen
+}
+
+func (ca *countAcc) sawOp(pos token.Pos) {
+	if ca.firstOp == token.NoPos || pos < ca.firstOp {
+		ca.firstOp = pos
+	}
 }
 
 func stripConv(e ast.Expr) ast.Expr {
@@ -431,6 +438,7 @@ func (ca *countAcc) stmts(list []ast.Stmt) {
 			if call, ok := st.X.(*ast.CallExpr); ok {
 				if k := ca.astIOKind(call); k != "" {
 					ca.n++
+					ca.sawOp(call.Pos())
 					ca.r.Violate("R13c", fmt.Sprintf("%s/%s#%d", ca.fname, k, ca.n), ca.p.Pos(call.Pos()), "the results of the stream operation (count and error) are dropped", "in "+ca.fname)
 				}
 			}
@@ -440,6 +448,7 @@ func (ca *countAcc) stmts(list []ast.Stmt) {
 				if call, ok := e.(*ast.CallExpr); ok {
 					if k := ca.astIOKind(call); k != "" {
 						ca.n++
+						ca.sawOp(call.Pos())
 						ca.r.Discharge("R13c", fmt.Sprintf("%s/%s#%d", ca.fname, k, ca.n), ca.p.Pos(call.Pos()), "count and error are returned directly", true)
 					}
 				}
@@ -495,6 +504,7 @@ func (ca *countAcc) exprs(es ...ast.Expr) {
 
 func (ca *countAcc) site(list []ast.Stmt, i int, st *ast.AssignStmt, call *ast.CallExpr, kind string) {
 	ca.n++
+	ca.sawOp(call.Pos())
 	key := fmt.Sprintf("%s/%s#%d", ca.fname, kind, ca.n)
 	pos := ca.p.Pos(call.Pos())
 	if ca.total == nil {
@@ -562,6 +572,11 @@ func runCountAcc(p *Program, r *Report, reach map[*ssa.Function]bool) {
 					if id, ok := last.(*ast.Ident); ok && id.Name == "nil" {
 						o := ca.obj(ret.Results[0])
 						if o == nil {
+							// the literal 0 is the right count where no stream operation can have run yet:
+							// accepted when the return precedes the first stream operation of the body
+							if lit, isLit := ret.Results[0].(*ast.BasicLit); isLit && lit.Value == "0" && (ca.firstOp == token.NoPos || ret.Pos() < ca.firstOp) {
+								return true
+							}
 							okAll, bad = false, ret.Pos()
 						}
 					}
